@@ -1,7 +1,7 @@
 (* C01 — Exp is the matrix exponential on so3, se3, rxso3, sim3.  Statements only (over R);
    proofs in Proofs/LieExp.v, ExpODE.v, ExpODE2.v, ExpODE3.v (closed-form branches), ExpODE4.v (degenerate
    generators, every-generator uniqueness, mixed regime), ExpTaylor.v (Taylor branches, distance to the exponential,
-   the condition3 defect of rxso3_Ws).  [eps] is the dtype's machine epsilon (any 0 <= eps <= 2^-10). *)
+   the former condition3 defect of rxso3_Ws).  [eps] is the dtype's machine epsilon (any 0 <= eps <= 2^-10). *)
 From Coq Require Import Reals List Lra.
 From Coquelicot Require Import Coquelicot.
 From PV Require Import Base.Num Model.LieGroup Model.LieExp Proofs.LieGroup Proofs.LieExp Proofs.ExpODE Proofs.ExpODE2 Proofs.ExpODE3 Proofs.ExpODE4 Proofs.ExpTaylor.
@@ -162,6 +162,10 @@ Theorem C01_rxso3_exp_at_zero_rotation_is_matrix_exponential : forall (eps : R) 
 Proof.
   intros eps phi sg E He H. rewrite rxso3_exp_matrix_zero by assumption. rewrite (vnorm_zero phi H). apply rxso3_zero_exponential.
 Qed.
+(* rxso3_Ws at theta = 0 is C I with the code's C: the closed form (exp sigma - 1)/sigma for |sigma| > eps, 1 otherwise *)
+Theorem C01_rxso3_Ws_at_zero_rotation : forall (eps : R) (x : vec3R) (sg : R), 0 <= eps -> vnorm x = 0 ->
+  rxso3_Ws eps (x, sg) = mscale3 (if Rlt_dec eps (Rabs sg) then (exp sg - 1) / sg else 1) mid3.
+Proof. exact rxso3_Ws_zero_rotation. Qed.
 (* sim3 at phi = 0: exact for sigma = 0 and for |sigma| > eps (for 0 < |sigma| <= eps the model uses C = 1: see
    C01_sim3_exp_translation_close) *)
 Theorem C01_sim3_exp_at_zero_rotation_is_matrix_exponential : forall (eps : R) (tau phi : vec3R) (sg : R),
@@ -192,30 +196,51 @@ Theorem C01_sim3_Ws_small_sigma_close : forall (eps : R) (phi : vec3R) (sg : R),
   Rabs (m3get (rxso3_Ws eps (phi, sg)) i j - m3get (mexp_Vmat phi sg) i j) <= 8 * Rabs sg.
 Proof. exact rxso3_Ws_small_sigma_close. Qed.
 
-(* ======================= regime theta <= eps < |sigma| (condition3 of rxso3_Ws): a defect ======================= *)
-(* at theta = 0 it is exact (above).  For 0 < theta <= eps the model is  A3 K + B3c K^2 + C I  with the code's
-   B3c = (sigma^2 e^sigma/2 + e^sigma - 1 - sigma^2 e^sigma)/sigma^3; the part A3 K + C I is within
-   exp|sigma| (theta^3/6 + theta^2/2) of the exponential, so the error of the model IS B3c K^2 up to that ... *)
-Theorem C01_sim3_Ws_small_angle_large_sigma_error : forall (eps : R) (phi : vec3R) (sg : R),
+(* ======================= regime theta <= eps < |sigma| (condition3 of rxso3_Ws) ======================= *)
+(* at theta = 0 it is exact (above).  For 0 < theta <= eps the model (after the repair "fix: rxso3_Ws B coefficient" in
+   /repo) is  A3 K + B3 K^2 + C I  whose coefficients are the theta -> 0 limits of the true ones, i.e. the integrals
+   over [0,1] of  s e^{s sigma},  s^2/2 e^{s sigma},  e^{s sigma} ... *)
+Theorem C01_rxso3_Ws_condition3_form : forall (eps : R) (phi : vec3R) (sg : R), vnorm phi <= eps -> eps < Rabs sg ->
+  rxso3_Ws eps (phi, sg) =
+  madd3 (madd3 (mscale3 (A3 sg) (skew phi)) (mscale3 (B3 sg) (mmul3 (skew phi) (skew phi)))) (mscale3 ((exp sg - 1) / sg) mid3).
+Proof. exact rxso3_Ws_regime3_abc. Qed.
+Theorem C01_rxso3_Ws_condition3_coefficients_are_integrals : forall sg : R, sg <> 0 ->
+  is_RInt (fun s => exp (s * sg) * s) 0 1 (A3 sg) /\
+  is_RInt (fun s => exp (s * sg) * (s * s / 2)) 0 1 (B3 sg) /\
+  is_RInt (fun s => exp (s * sg)) 0 1 ((exp sg - 1) / sg).
+Proof. intros sg H. split; [now apply A3_is_integral | split; [now apply B3_is_integral | now apply C3_is_integral]]. Qed.
+(* ... and every entry of it is within exp|sigma| (theta^3/6 + theta^4/24) of the true translation matrix W(phi, sigma) *)
+Theorem C01_sim3_Ws_small_angle_large_sigma_close : forall (eps : R) (phi : vec3R) (sg : R),
   0 < vnorm phi <= eps -> eps < Rabs sg -> eps <= 1 ->
   forall i j, (i < 3)%nat -> (j < 3)%nat ->
-  Rabs (m3get (rxso3_Ws eps (phi, sg)) i j - m3get (mexp_Vmat phi sg) i j - B3c sg * m3get (mmul3 (skew phi) (skew phi)) i j)
+  Rabs (m3get (rxso3_Ws eps (phi, sg)) i j - m3get (mexp_Vmat phi sg) i j)
+    <= exp (Rabs sg) * ((vnorm phi)^3 / 6 + (vnorm phi)^4 / 24).
+Proof. exact rxso3_Ws_regime3_close. Qed.
+
+(* history (defect found by these proofs, repaired in /repo): before the repair the K^2 coefficient of this branch was
+   rxso3_Ws_B3_old sigma = (sigma^2 e^sigma/2 + e^sigma - 1 - sigma^2 e^sigma)/sigma^3 (sigma^2 e^sigma where B3 has
+   sigma e^sigma); Ws_old_regime3 phi sigma = A3 K + B3_old K^2 + C I is the matrix rxso3_Ws returned then.  Its part
+   A3 K + C I is within exp|sigma| (theta^3/6 + theta^2/2) of the exponential, so its error WAS B3_old K^2 up to that ... *)
+Theorem C01_sim3_Ws_old_B3_error : forall (phi : vec3R) (sg : R), 0 < vnorm phi <= 1 -> sg <> 0 ->
+  forall i j, (i < 3)%nat -> (j < 3)%nat ->
+  Rabs (m3get (Ws_old_regime3 phi sg) i j - m3get (mexp_Vmat phi sg) i j
+        - rxso3_Ws_B3_old sg * m3get (mmul3 (skew phi) (skew phi)) i j)
     <= exp (Rabs sg) * ((vnorm phi)^3 / 6 + (vnorm phi)^2 / 2).
-Proof. exact rxso3_Ws_regime3_error. Qed.
-(* ... and B3c is not small: B3c sigma^2 >= 1/2 for 0 < |sigma| <= 1/8 (the true coefficient tends to 1/6), so the
-   translation error is of relative size (theta/sigma)^2 / 2 or more *)
-Theorem C01_sim3_Ws_condition3_B_coefficient_large : forall sg : R, sg <> 0 -> Rabs sg <= 1/8 ->
-  1/2 <= B3c sg * (sg * sg).
-Proof. exact B3c_large. Qed.
-(* a concrete failing input in exact real arithmetic, for the eps of float64 and of float32: phi = (eps,0,0),
-   sigma = 2 eps, tau = (0,1,0): the y-component of the translation of the modelled Exp differs from that of the
-   matrix exponential (~1) by more than 1/5.  The clause "Exp is the matrix exponential within sqrt(eps)" is FALSE of
-   the faithful model in this regime *)
-Theorem C01_sim3_exp_small_angle_large_sigma_refuted : forall eps : R, eps = / 2^52 \/ eps = / 2^23 ->
+Proof. exact rxso3_Ws_old_regime3_error. Qed.
+(* ... and B3_old was not small: B3_old sigma^2 >= 1/2 for 0 < |sigma| <= 1/8 (B3 tends to 1/6): a relative translation
+   error of (theta/sigma)^2 / 2 or more *)
+Theorem C01_sim3_Ws_old_B3_coefficient_large : forall sg : R, sg <> 0 -> Rabs sg <= 1/8 ->
+  1/2 <= rxso3_Ws_B3_old sg * (sg * sg).
+Proof. exact B3_old_large. Qed.
+(* a concrete input, for the eps of float64 and of float32: phi = (eps,0,0), sigma = 2 eps, tau = (0,1,0): the
+   y-component of the old translation differed from that of the matrix exponential (~1) by more than 1/5 (the clause
+   "Exp is the matrix exponential" was FALSE of the old code in exact arithmetic); the repaired model is within 10^-25 *)
+Theorem C01_sim3_Ws_old_B3_refuted : forall eps : R, eps = / 2^52 \/ eps = / 2^23 ->
   exists (tau phi : vec3R) (sg : R), vnorm phi <= eps /\ eps < Rabs sg /\
     forall (E : @mat3 R) (p : vec3R), is_mexp_sim3 tau phi sg E p ->
-      Rabs (vc 1 (fst (sim3_exp eps (tau, (phi, sg)))) - vc 1 p) > 1/5.
-Proof. exact sim3_regime3_refuted. Qed.
+      Rabs (vc 1 (mvmul (Ws_old_regime3 phi sg) tau) - vc 1 p) > 1/5 /\
+      Rabs (vc 1 (fst (sim3_exp eps (tau, (phi, sg)))) - vc 1 p) < / 10^25.
+Proof. exact sim3_old_regime3_refuted. Qed.
 
 (* ======================= Taylor branches: coefficient bounds ======================= *)
 Theorem C01_so3_exp_coef_taylor_close : forall (eps th : R), 0 < th <= eps -> eps <= 1 ->
@@ -257,7 +282,8 @@ Theorem C01_se3_exp_close_to_exponential : forall (eps : R) (tau phi : vec3R) (E
      Rabs (vc i (fst (se3_exp eps (tau, phi))) - vc i p) <= (Rmin (vnorm phi) eps) ^ 5 / 600 * norm1 tau).
 Proof. exact se3_exp_close_to_exponential. Qed.
 (* sim3: rotation-scale block as rxso3; translation: |sigma| <= eps (any angle) within (8|sigma| + min(theta,eps)^3/5)|tau|_1,
-   |sigma| > eps with theta = 0 or theta > eps exact; the remaining regime 0 < theta <= eps < |sigma| is the defect above *)
+   |sigma| > eps with theta = 0 or theta > eps exact, 0 < theta <= eps < |sigma| within exp|sigma| theta^3/5 |tau|_1;
+   in one statement for EVERY generator: C01_sim3_exp_translation_close_every_generator *)
 Theorem C01_sim3_exp_rotation_close : forall (eps : R) (tau phi : vec3R) (sg : R) (E : @mat3 R) (p : vec3R), 0 <= eps <= 1 ->
   is_mexp_sim3 tau phi sg E p ->
   forall i j, (i < 3)%nat -> (j < 3)%nat ->
@@ -268,6 +294,12 @@ Theorem C01_sim3_exp_translation_close : forall (eps : R) (tau phi : vec3R) (sg 
   forall i, (i < 3)%nat ->
   Rabs (vc i (fst (sim3_exp eps (tau, (phi, sg)))) - vc i p) <= (8 * Rabs sg + (Rmin (vnorm phi) eps) ^ 3 / 5) * norm1 tau.
 Proof. exact sim3_exp_translation_close. Qed.
+Theorem C01_sim3_exp_translation_close_every_generator :
+  forall (eps : R) (tau phi : vec3R) (sg : R) (E : @mat3 R) (p : vec3R), 0 <= eps <= 1/4 -> is_mexp_sim3 tau phi sg E p ->
+  forall i, (i < 3)%nat ->
+  Rabs (vc i (fst (sim3_exp eps (tau, (phi, sg)))) - vc i p)
+    <= (8 * Rmin (Rabs sg) eps + exp (Rabs sg) * ((Rmin (vnorm phi) eps) ^ 3 / 5)) * norm1 tau.
+Proof. exact sim3_exp_translation_close_total. Qed.
 Theorem C01_sim3_exp_translation_exact : forall (eps : R) (tau phi : vec3R) (sg : R) (E : @mat3 R) (p : vec3R),
   0 <= eps -> eps < Rabs sg -> vnorm phi = 0 \/ eps < vnorm phi -> is_mexp_sim3 tau phi sg E p ->
   fst (sim3_exp eps (tau, (phi, sg))) = p.
@@ -299,9 +331,6 @@ Print Assumptions C01_rxso3_exp_at_zero_rotation_is_matrix_exponential.
 Print Assumptions C01_sim3_exp_at_zero_rotation_is_matrix_exponential.
 Print Assumptions C01_sim3_exp_small_sigma_uses_se3_translation.
 Print Assumptions C01_sim3_Ws_small_sigma_close.
-Print Assumptions C01_sim3_Ws_small_angle_large_sigma_error.
-Print Assumptions C01_sim3_Ws_condition3_B_coefficient_large.
-Print Assumptions C01_sim3_exp_small_angle_large_sigma_refuted.
 Print Assumptions C01_so3_exp_coef_taylor_close.
 Print Assumptions C01_so3_Jl_coef_taylor_close.
 Print Assumptions C01_rxso3_Ws_coef_taylor_close.
@@ -311,3 +340,11 @@ Print Assumptions C01_se3_exp_close_to_exponential.
 Print Assumptions C01_sim3_exp_rotation_close.
 Print Assumptions C01_sim3_exp_translation_close.
 Print Assumptions C01_sim3_exp_translation_exact.
+Print Assumptions C01_rxso3_Ws_at_zero_rotation.
+Print Assumptions C01_rxso3_Ws_condition3_form.
+Print Assumptions C01_rxso3_Ws_condition3_coefficients_are_integrals.
+Print Assumptions C01_sim3_Ws_small_angle_large_sigma_close.
+Print Assumptions C01_sim3_Ws_old_B3_error.
+Print Assumptions C01_sim3_Ws_old_B3_coefficient_large.
+Print Assumptions C01_sim3_Ws_old_B3_refuted.
+Print Assumptions C01_sim3_exp_translation_close_every_generator.
